@@ -953,7 +953,8 @@ func (view *View) replace(ctx context.Context, flags *option.Flags, fields []par
 			return 0, NewReplaceKeyNotSetError(keys[idx])
 		}
 	}
-	updateIndices := make([]int, 0, len(fieldIndices)-len(keyIndices))
+	// a key can be listed more than once, so the distinct keys are counted
+	updateIndices := make([]int, 0, len(fieldIndices)-len(keyIndicesMap))
 	for _, i := range fieldIndices {
 		if _, ok := keyIndicesMap[uint(i)]; !ok {
 			updateIndices = append(updateIndices, i)
